@@ -523,6 +523,17 @@ def decode_seq(seq, encoding, errors='strict'):
     if enc in ('ascii', 'us-ascii'):
         ascii_guard(seq, 'decode')
         return SStr(seq.copy('bytes'), 'ascii')
+    if enc == 'idna':
+        # ToUnicode(ToASCII(label)) == label for a label in normal form (every ASCII label, every lower-case/NFKC Unicode
+        # label): bytes that are provably the ToASCII image of a text seen on this path decode to that text
+        P = E.cur()
+        from . import vc
+        if P.entails(seq.n == 0):
+            return SStr(seq.copy('bytes'), 'ascii')            # b''.decode('idna') == '' (no label to convert)
+        for src, out in list(P.__dict__.get('idna_memo', {}).values()):
+            if P.entails(seq.n == out.n) and P.entails(z3.And(*[f for _, f in vc.goal_eq(seq.copy('bytes'), out.copy('bytes'))])):
+                used('codec idna: decoding the ToASCII image of a label gives the label back (labels assumed in IDNA normal form)')
+                return SStr(src, 'ascii')
     if enc in ('utf-8', 'utf8', 'idna', 'latin-1', 'latin1'):
         used('codec %s: decoding is a partial injective map on byte strings; UnicodeDecodeError possible for any input' % enc)
         if enc not in ('latin-1', 'latin1') and E.cur().choose('decode_error'):
@@ -535,8 +546,37 @@ def decode_seq(seq, encoding, errors='strict'):
     raise E.Unsupported('codec %s' % encoding)
 
 
+def idna_toascii(s, lookup_only=False):
+    """text.encode('idna') (IDNA ToASCII) as an uninterpreted function of the text: the same text object always maps to
+    the same byte string; UnicodeError (label empty or too long, disallowed code point) is possible for any text"""
+    P = E.cur()
+    memo = P.__dict__.setdefault('idna_memo', {})
+    key = id(s.seq)
+    if key in memo:
+        return memo[key][1]
+    if lookup_only:
+        return None
+    used('codec idna: ToASCII is an uninterpreted function of the text; UnicodeError possible for any text')
+    if P.choose('idna_encode_error'):
+        P.overapprox.append('idna encode error (assumed raise-set)')
+        raise_(UnicodeError, 'label empty or too long')
+    out, facts = V.base_seq('toascii', 'bytes')
+    for f in facts:
+        P.assume(f)
+    # what the stdlib codec guarantees about its result: at most 63 octets per label (longer raises UnicodeError), all
+    # ASCII, and empty exactly for the empty text
+    j = z3.Int('j!q')
+    P.assume(out.n <= 63)
+    P.assume((out.n == 0) == (s.seq.n == 0))
+    P.assume(z3.ForAll([j], z3.Implies(z3.And(j >= 0, j < out.n), out.at(j) < 128)))
+    memo[key] = (s.seq, out)
+    return out
+
+
 def encode_str(s, encoding):
     enc = (encoding or 'utf-8').lower().replace('_', '-')
+    if isinstance(s, SStr) and enc == 'idna':
+        return idna_toascii(s)
     if isinstance(s, SStr):
         if s.enc == enc or (s.enc == 'ascii' and enc in ('utf-8', 'utf8', 'latin-1')):
             return s.seq.copy('bytes')
